@@ -86,3 +86,8 @@ CHECKS["C18"] = dict(level=EX, engine="E3", design_ref="DESIGN.md section 3 C18"
    technique="exhaustive enumeration of tree shapes x (node, single-field difference) pairs and (node, edit-after-copy) pairs, both argument orders",
    text="For every ordered tree shape up to 6 (8) nodes with all fields populated: twins and copies must compare equal; every pair differing in exactly one field of exactly one node (28 difference kinds over name, content incl. ''/None, tail, attributes, extras, prefix, nsmap, children added/removed/swapped) must compare unequal, symmetrically; a copy must stop being equal after any one edit anywhere on either side.",
    note="Same-object comparison and dict-order-only differences are outside the statement.")
+
+CHECKS["C20"] = dict(level=EX, engine="E4", design_ref="DESIGN.md section 3 C20",
+   technique="exhaustive bounded string enumeration through normalize(); bounded document grammar through normalize(is_xml=True) judged by an expat infoset and an own XPath normalize-space",
+   text="Every string up to length 8 (10) over {a,b,space,tab,LF,NBSP} (and short strings over a wider alphabet) must normalise idempotently, keep its words and order, and contain no NBSP, edge space or space run. Every document up to 4 elements over ordinary and protected names with up to 2 (3) whitespace-laden text/tail/attribute features must come back well-formed with the same elements, attribute names and order, space-normalised values outside protected elements, preserved text inside them, and a second pass must return the identical string.",
+   note="Length/alphabet and document-size bounds; literal NBSP only; indentation added by the serializer where the expected text is empty is tolerated (absent = '' = whitespace-only).")
